@@ -2,17 +2,11 @@
    hypotheses of the theorems in Props/, evaluated by vm_compute. *)
 From Coq Require Import ZArith List Bool String Lia.
 Require Import QzSched.Gen.Params QzSched.SchedModel QzSched.Registry QzSched.ListQueue QzSched.Triggers
-               QzSched.LtsDefs QzSched.ApiProofs QzSched.ListQueueProofs QzSched.C08Proofs QzSched.C04Proofs.
+               QzSched.LtsDefs QzSched.ApiProofs QzSched.ListQueueProofs QzSched.C08Proofs QzSched.C04Proofs QzSched.ExamplesC09.
 Import ListNotations.
 Open Scope string_scope.
 Open Scope Z_scope.
 
-Definition ka : jkey := ("a", "default").
-Definition kb : jkey := ("b", "g").
-Definition ts0 : tid -> xstate :=
-  fun t => match t with 0%nat => TSimple 10 | 1%nat => TOnce 5 false | 2%nat => TFail 7%nat | _ => TSimple 1 end.
-Definition thr0 (i : nat) : Z := 3.
-Definition jd (k : jkey) (r s : bool) := Some (mkJD (Some k) r s).
 Notation xrun := (run list_queue xstate nft_exec thr0).
 Notation xinit := (init list_queue xstate ts0 100).
 Notation xlog := (s_log list_queue xstate).
@@ -86,34 +80,6 @@ Example ex_c08_resume : exists s, xrun xinit (tr_a ++ tr_b ++ [LApi (OpResume (S
   q_get list_queue ka (xq s) = Some (mkEntry ka 221 false false 0%nat) /\
   hd_error (xlog s) = Some (EvApi (OpResume (Some ka)) ROk).
 Proof. eexists. split; [vm_compute; reflexivity|]. vm_compute. auto. Qed.
-
-(* C09: every sentinel occurs in a sequential run; the error calls leave the registry as it was *)
-Definition ops_c09 : list (Z * apiop) :=
-  [ (100, OpSchedule None (Some 0%nat));                              (* IllegalArgument *)
-    (100, OpSchedule (jd ("", "g") false false) (Some 0%nat));        (* IllegalArgument: empty name *)
-    (100, OpSchedule (jd ka false false) (Some 0%nat));               (* Ok *)
-    (101, OpSchedule (jd ka false false) (Some 3%nat));               (* AlreadyExists *)
-    (102, OpSchedule (jd ka true true) (Some 1%nat));                 (* Ok: replaced, suspended, run-once *)
-    (103, OpPause (Some ka));                                         (* IsSuspended *)
-    (104, OpResume (Some ka));                                        (* Ok: 104 + 5 *)
-    (105, OpResume (Some ka));                                        (* IsActive *)
-    (106, OpPause (Some ka));                                         (* Ok *)
-    (107, OpResume (Some ka));                                        (* trigger expired: stays paused *)
-    (108, OpGet (Some ka));
-    (109, OpDelete (Some kb));                                        (* NotFound *)
-    (110, OpSchedule (jd kb false false) (Some 2%nat));               (* the trigger's own error *)
-    (111, OpKeys); (112, OpClear); (113, OpKeys); (114, OpDelete None) ].
-Example ex_c09_run : fst (fst (api_run list_queue xstate nft_exec ops_c09 [] ts0)) =
-  [ RErr (ESent SIllegalArgument); RErr (ESent SIllegalArgument); ROk; RErr (ESent SJobAlreadyExists); ROk;
-    RErr (ESent SJobIsSuspended); ROk; RErr (ESent SJobIsActive); ROk; RErr (ETrig 0%nat);
-    RJob (mkEntry ka go_MaxInt64 true true 1%nat); RErr (ESent SJobNotFound); RErr (ETrig 7%nat);
-    RKeys [ka]; ROk; RKeys []; RErr (ESent SIllegalArgument) ].
-Proof. vm_compute. reflexivity. Qed.
-
-(* the same calls on the sorted queue give the same results *)
-Example ex_c09_sorted : fst (fst (api_run sorted_queue xstate nft_exec ops_c09 [] ts0)) =
-                        fst (fst (api_run list_queue xstate nft_exec ops_c09 [] ts0)).
-Proof. vm_compute. reflexivity. Qed.
 
 (* run-once: scheduled at 100 with delay 5; fetched on time at 106 -> handed to execution once, gone *)
 Example ex_runonce : exists s, xrun xinit [LSchedPre 7 (jd kb false false) (Some 1%nat); LSchedCommit 7; LAdv 6; LFetch 0; LExec 0; LAdv 50; LFetch 0] = Some s /\
